@@ -81,7 +81,12 @@ func VH_C06_finalizers() {
 	puts0 := zzverif.PoolPuts()
 	e := l.Info()
 	vCurEvent = e
-	switch zzverif.Choice(6) {
+	switch zzverif.Choice(8) {
+	case 6:
+		// a user type as array marshaler: Event.Array borrows a pooled *Array for it
+		e.Array("ua", vUserArr{n: 2}).Array("ub", vUserArr{n: 0})
+	case 7:
+		e.Array("a", Arr().Object(&vUserObj{n: 1})).Dict("d", Dict().Array("ua", vUserArr{n: 1}))
 	case 0:
 		e.Str("k", zzverif.String(1))
 	case 1:
